@@ -21,6 +21,8 @@ pub fn check(tier: Tier) -> Check {
         // well-formed packets - expected or not - in richer session states
         Part::new("C04/states", json!({"depth": tier.pick(2, 3), "pairs": false}), 0, tier.pick(40, 600)),
         Part::new("C04/states", json!({"depth": tier.pick(0, 1), "pairs": true}), 0, tier.pick(40, 600)),
+        // well-formed big packets followed by fragments (buffer management must not panic or lose input)
+        Part::new("C04/after-big", json!({"sizes": [9000, 70_000, 1_100_000]}), 0, 120),
         Part::new("C04/trickle", json!({"size": tier.pick(65_536, 2_100_000)}), 0, 120),
     ];
     Check {
@@ -501,6 +503,9 @@ pub fn scenario(name: &str, params: &Value) -> Scenario {
     let name = name.to_string();
     if name == "C04/states" {
         return states(name, params);
+    }
+    if name == "C04/after-big" {
+        return super::c03::after_big("C04", name, params);
     }
     match name.as_str() {
         "C04/bytes" => {
